@@ -96,7 +96,7 @@ func (fr *Frame) seedVal(v *Val) {
 	if vc.seeded == nil {
 		vc.seeded = map[string]bool{}
 	}
-	for _, name := range sortedKeys(vc.specUsed) {
+	for _, name := range sortedKeys(fr.eng.specClosure(vc.specUsed)) {
 		si := fr.eng.specs[name]
 		if si == nil || !si.done || si.sf.Kind == "macro" || si.sf.Kind == "abstract" {
 			continue
@@ -195,4 +195,23 @@ func (fr *Frame) isNamedVar(v ssa.Value) bool {
 		}
 	}
 	return fr.namedVars[v]
+}
+
+// specClosure: the given spec functions and everything they call.
+func (e *Engine) specClosure(used map[string]bool) map[string]bool {
+	out := map[string]bool{}
+	var mark func(n string)
+	mark = func(n string) {
+		if out[n] {
+			return
+		}
+		out[n] = true
+		for _, c := range e.specCallees[n] {
+			mark(c)
+		}
+	}
+	for n := range used {
+		mark(n)
+	}
+	return out
 }
